@@ -137,8 +137,9 @@ class Program:
                     tree = ast.parse(source, filename=path)
                 except SyntaxError as e:
                     raise AnalysisError(f"{rel} does not parse: {e}")
-                from .localnames import canonicalise, orient_comparisons
+                from .localnames import canonicalise, normalise_logic, orient_comparisons
                 canonicalise(tree, name)
+                normalise_logic(tree)
                 orient_comparisons(tree)
                 self.modules[name] = Module(name, path, rel, source, tree, is_pkg=is_pkg)
 
